@@ -316,7 +316,7 @@ def replay(check_id, h, workdir):
     env = dict(os.environ)
     env.update({"CARGO_NET_OFFLINE": "true",
                 "MRECORDLOG_VERIF_HARNESS_DIR": os.path.join(VERIF, "harness"),
-                "RUSTFLAGS": " ".join(GEO_CFG[h["geo"]])})
+                "RUSTFLAGS": " ".join(GEO_CFG[h["geo"]] + ["--cfg", "verif_thorough"])})
     target = os.path.join(workdir, "t" + h["geo"] + "_replay")
     cmd = ["cargo", "kani", "--target-dir", target, "-Z", "stubbing", "--harness", h["pretty_name"], "--exact",
            "--no-assertion-reach-checks", "-Z", "concrete-playback", "--concrete-playback=print",
